@@ -419,3 +419,105 @@ func c13DishonestBob(r *vc.Run, g rng) {
 		}
 	}
 }
+
+// c11OverBound: provers written from the paper that tell the truth about everything but draw ONE mask from just outside
+// its range, so that every equation of the verifier holds and exactly one bound (s1 <= q^3 or t1 <= q^7) is exceeded:
+// alpha = q^3 + 1 gives s1 = e*x + alpha in (q^3, q^3 + q^2], gamma = q^7 + 1 gives t1 in (q^7, q^7 + q^6]. The bounds
+// belong to the curve of the exchange: the cases run on secp256k1 first and then on NIST P-256 (a smaller order of the
+// same bit length), each with an in-range control that must be accepted (it validates the forger).
+func c11OverBound(r *vc.Run, g rng) {
+	keys, _ := fixtures()
+	kA := keys[0]
+	N := kA.PaillierSK.N
+	N2 := mul(N, N)
+	nt, h1, h2 := kA.NTildei, kA.H1i, kA.H2i
+	expm := func(b, e, m *big.Int) *big.Int { return new(big.Int).Exp(b, e, m) }
+	mulm := func(a, b, m *big.Int) *big.Int { return new(big.Int).Mod(new(big.Int).Mul(a, b), m) }
+	Gam := add(N, 1)
+	enc := func(m, x *big.Int) *big.Int { return mulm(expm(Gam, m, N2), expm(x, N, N2), N2) }
+	session := []byte("c11-over-bound")
+	for _, cn := range []string{"secp256k1", "p256"} {
+		ec := curveByName(cn)
+		q := ec.Params().N
+		q3 := q3of(q)
+		q5 := mul(q3, mul(q, q))
+		q7 := mul(mul(q3, q3), q)
+		for _, variant := range []string{"control", "alpha=q3+1", "gamma=q7+1"} {
+			// ---- Alice's range proof
+			if variant != "gamma=q7+1" {
+				m, rr := g.below(q), g.unit(N)
+				c := enc(m, rr)
+				alpha := g.below(q3)
+				if variant != "control" {
+					alpha = add(q3, 1)
+				}
+				beta, gamma, rho := g.unit(N), g.below(mul(q3, nt)), g.below(mul(q, nt))
+				z := mulm(expm(h1, m, nt), expm(h2, rho, nt), nt)
+				u := mulm(expm(Gam, alpha, N2), expm(beta, N, N2), N2)
+				w := mulm(expm(h1, alpha, nt), expm(h2, gamma, nt), nt)
+				e := common.RejectionSample(q, common.SHA512_256i(N, Gam, c, z, u, w))
+				sv := mulm(expm(rr, e, N), beta, N)
+				s1 := new(big.Int).Add(mul(e, m), alpha)
+				s2 := new(big.Int).Add(mul(e, rho), gamma)
+				args := []val.V{val.A(cn), val.I(N), val.I(nt), val.I(h1), val.I(h2), val.I(c), val.Ints([]*big.Int{z, u, w, sv, s1, s2})}
+				o := r.Case("over-bound/alice/"+cn+"/"+variant, true, "alice_verify", args...)
+				if variant == "control" && !accepted(o) {
+					r.Note("the harness's own Alice is rejected when every mask is in range: %s", o.String())
+				}
+				if variant != "control" && accepted(o) {
+					r.Violate("bound-not-enforced|alice_verify|S1|"+cn, "the range proof verifier accepts a transcript whose equations all hold and whose s1 exceeds q^3 of the exchange's curve", vc.Line("alice_verify", args))
+				}
+			}
+			// ---- Bob's proof, with and without the public point
+			bv := add(g.below(add(q, -1)), 1)
+			a := g.below(q)
+			c1 := enc(a, g.unit(N))
+			y, rB := g.below(q5), g.unit(N)
+			c2 := mulm(expm(c1, bv, N2), enc(y, rB), N2)
+			alpha, gam := g.below(q3), g.below(q7)
+			switch variant {
+			case "alpha=q3+1":
+				alpha = add(q3, 1)
+			case "gamma=q7+1":
+				gam = add(q7, 1)
+			}
+			X := crypto.ScalarBaseMult(ec, bv)
+			U := crypto.ScalarBaseMult(ec, new(big.Int).Mod(alpha, q))
+			rho, sigma := g.below(mul(q, nt)), g.below(mul(q, nt))
+			tau, rhoP := g.below(mul(q3, nt)), g.below(mul(q3, nt))
+			beta := g.unit(N)
+			z := mulm(expm(h1, bv, nt), expm(h2, rho, nt), nt)
+			zP := mulm(expm(h1, alpha, nt), expm(h2, rhoP, nt), nt)
+			t := mulm(expm(h1, y, nt), expm(h2, sigma, nt), nt)
+			v := mulm(mulm(expm(c1, alpha, N2), expm(Gam, gam, N2), N2), expm(beta, N, N2), N2)
+			w := mulm(expm(h1, gam, nt), expm(h2, tau, nt), nt)
+			for _, wc := range []bool{false, true} {
+				var e *big.Int
+				if wc {
+					e = common.RejectionSample(q, common.SHA512_256i_TAGGED(session, N, Gam, X.X(), X.Y(), c1, c2, U.X(), U.Y(), z, zP, t, v, w))
+				} else {
+					e = common.RejectionSample(q, common.SHA512_256i_TAGGED(session, N, Gam, c1, c2, z, zP, t, v, w))
+				}
+				sv := mulm(expm(rB, e, N), beta, N)
+				s1 := new(big.Int).Add(mul(e, bv), alpha)
+				s2 := new(big.Int).Add(mul(e, rho), rhoP)
+				t1 := new(big.Int).Add(mul(e, y), gam)
+				t2 := new(big.Int).Add(mul(e, sigma), tau)
+				pf := val.Ints([]*big.Int{z, zP, t, v, w, sv, s1, s2, t1, t2})
+				op := "bob_verify"
+				args := []val.V{val.A(cn), val.B(session), val.I(N), val.I(nt), val.I(h1), val.I(h2), val.I(c1), val.I(c2), pf}
+				if wc {
+					op = "bobwc_verify"
+					args = append(args, pointV(U), pointV(X))
+				}
+				o := r.Case("over-bound/"+op+"/"+cn+"/"+variant, true, op, args...)
+				if variant == "control" && !accepted(o) {
+					r.Note("the harness's own Bob is rejected when every mask is in range: %s", o.String())
+				}
+				if variant != "control" && accepted(o) {
+					r.Violate("bound-not-enforced|"+op+"|"+variant+"|"+cn, "Bob's proof verifier accepts a transcript whose equations all hold and in which one response exceeds its bound on the exchange's curve", vc.Line(op, args))
+				}
+			}
+		}
+	}
+}
